@@ -120,19 +120,30 @@ theorem rightFan_base_nonneg {G uR aR dxdt : ℝ} (hG : 1 < G) (h1 : dxdt < uR +
 theorem tgdgm1_pos {G : ℝ} (hG : 1 < G) : 0 < tgdgm1 G := by
   unfold tgdgm1; rw [lit2]; exact div_pos (by nlinarith) (by rw [lit1]; linarith)
 
+/-! ### the clamp `base = std::max(0., …)` of fix 52f78a3 -/
+
+theorem amax0_nonneg (x : ℝ) : 0 ≤ amax (0.0 : ℝ) x := by
+  rw [amax_real, lit0]; exact le_max_left _ _
+
+theorem amax0_of_nonneg {x : ℝ} (h : 0 ≤ x) : amax (0.0 : ℝ) x = x := by
+  rw [amax_real, lit0]; exact max_eq_right h
+
+theorem amax0_one : amax (0.0 : ℝ) 1 = 1 := amax0_of_nonneg zero_le_one
+theorem amax0_zero : amax (0.0 : ℝ) 0 = 0 := amax0_of_nonneg (le_refl _)
+
 /-! ### sampled states are physical (`vacuum_sample_physical`) -/
 
-theorem leftFan_physical {G rhoL uL PL aL dxdt : ℝ} (tag : Nat) (hG : 1 < G) (hr : 0 ≤ rhoL)
-    (hP : 0 ≤ PL) (h1 : uL - aL < dxdt) (h2 : dxdt ≤ uL + tdgm1 G * aL) :
+theorem leftFan_physical {G rhoL uL PL aL dxdt : ℝ} (tag : Nat) (_hG : 1 < G) (hr : 0 ≤ rhoL)
+    (hP : 0 ≤ PL) (_h1 : uL - aL < dxdt) (_h2 : dxdt ≤ uL + tdgm1 G * aL) :
     0 ≤ (leftFan G rhoL uL PL aL dxdt tag).rho ∧ 0 ≤ (leftFan G rhoL uL PL aL dxdt tag).P := by
-  obtain ⟨_, hb⟩ := leftFan_base_nonneg hG h1 h2
+  have hb := amax0_nonneg (tdgp1 G + gm1dgp1 G * (uL - dxdt) / aL)
   unfold leftFan; simp only [pow_real]
   exact ⟨mul_nonneg hr (Real.rpow_nonneg hb _), mul_nonneg hP (Real.rpow_nonneg hb _)⟩
 
-theorem rightFan_physical {G rhoR uR PR aR dxdt : ℝ} (tag : Nat) (hG : 1 < G) (hr : 0 ≤ rhoR)
-    (hP : 0 ≤ PR) (h1 : dxdt < uR + aR) (h2 : uR - tdgm1 G * aR ≤ dxdt) :
+theorem rightFan_physical {G rhoR uR PR aR dxdt : ℝ} (tag : Nat) (_hG : 1 < G) (hr : 0 ≤ rhoR)
+    (hP : 0 ≤ PR) (_h1 : dxdt < uR + aR) (_h2 : uR - tdgm1 G * aR ≤ dxdt) :
     0 ≤ (rightFan G rhoR uR PR aR dxdt tag).rho ∧ 0 ≤ (rightFan G rhoR uR PR aR dxdt tag).P := by
-  obtain ⟨_, hb⟩ := rightFan_base_nonneg hG h1 h2
+  have hb := amax0_nonneg (tdgp1 G - gm1dgp1 G * (uR - dxdt) / aR)
   unfold rightFan; simp only [pow_real]
   exact ⟨mul_nonneg hr (Real.rpow_nonneg hb _), mul_nonneg hP (Real.rpow_nonneg hb _)⟩
 
@@ -265,9 +276,9 @@ theorem leftFan_head {G : ℝ} (hG : 1 < G) (rhoL uL PL aL : ℝ) (ha : aL ≠ 0
     rw [← e2]; field_simp; ring
   unfold leftFan
   ext
-  · simp only [hb, pow_real, Real.one_rpow, mul_one]
+  · simp only [hb, amax0_one, pow_real, Real.one_rpow, mul_one]
   · simp only; linear_combination uL * e
-  · simp only [hb, pow_real, Real.one_rpow, mul_one]
+  · simp only [hb, amax0_one, pow_real, Real.one_rpow, mul_one]
   · rfl
   · rfl
 
@@ -279,9 +290,9 @@ theorem rightFan_head {G : ℝ} (hG : 1 < G) (rhoR uR PR aR : ℝ) (ha : aR ≠ 
     rw [← e2]; field_simp; ring
   unfold rightFan
   ext
-  · simp only [hb, pow_real, Real.one_rpow, mul_one]
+  · simp only [hb, amax0_one, pow_real, Real.one_rpow, mul_one]
   · simp only; linear_combination uR * e
-  · simp only [hb, pow_real, Real.one_rpow, mul_one]
+  · simp only [hb, amax0_one, pow_real, Real.one_rpow, mul_one]
   · rfl
   · rfl
 
@@ -293,7 +304,7 @@ theorem leftFan_tail {G : ℝ} (hG : 1 < G) (rhoL uL PL aL : ℝ) (ha : aL ≠ 0
   have hb : tdgp1 G + gm1dgp1 G * (uL - (uL + tdgm1 G * aL)) / aL = 0 := by
     rw [← e]; field_simp; ring
   unfold leftFan
-  simp only [hb, pow_real]
+  simp only [hb, amax0_zero, pow_real]
   rw [Real.zero_rpow (tdgm1_pos hG).ne', Real.zero_rpow (tgdgm1_pos hG).ne']
   simp
 
@@ -304,7 +315,7 @@ theorem rightFan_tail {G : ℝ} (hG : 1 < G) (rhoR uR PR aR : ℝ) (ha : aR ≠ 
   have hb : tdgp1 G - gm1dgp1 G * (uR - (uR - tdgm1 G * aR)) / aR = 0 := by
     rw [← e]; field_simp; ring
   unfold rightFan
-  simp only [hb, pow_real]
+  simp only [hb, amax0_zero, pow_real]
   rw [Real.zero_rpow (tdgm1_pos hG).ne', Real.zero_rpow (tgdgm1_pos hG).ne']
   simp
 
